@@ -103,10 +103,29 @@ def posAll (C : Codec) (fid : Nat) (f : ByteArray) : List ByteArray → List Pos
 /-- are all bytes from `i` to the end zero (`zeroUntilEnd`) -/
 def allZeroFrom (f : ByteArray) (i : Nat) : Bool := (f.extract i f.size).data.all (· == 0)
 
+/-- the 16-bit length field (little endian) of the chunk header that starts at absolute position `i` -/
+def hdrLen (f : ByteArray) (i : Nat) : Nat :=
+  match (f.extract (i + 4) (i + 6)).data.toList with
+  | [x, y] => x.toNat + 256 * y.toNat
+  | _ => 0
+
+/-- end of the extent the chunk at `base + off` claims, clamped to the block window `base + size`
+    (the whole window when not even a header fits) -/
+def claimedEnd (f : ByteArray) (base off size : Nat) : Nat :=
+  if off + H ≤ size then min (base + size) (base + off + H + hdrLen f (base + off)) else base + size
+
+/-- tolerant reader only: at least one byte follows the extent the undecodable chunk claims, and
+    everything that follows it is zero — a record that was only partly persisted into a
+    zero-extended (memory-mapped) file before a power failure.  Under standard I/O nothing follows
+    a torn record, so this never applies there. -/
+def tornZero (tol : Bool) (f : ByteArray) (base off size : Nat) : Bool :=
+  tol && decide (claimedEnd f base off size < f.size) && allZeroFrom f (claimedEnd f base off size)
+
 /-- one loop iteration of `DataReader.next`: decode the chunk at (block, off).
     `tol` is the reader's `tolerateTornTail` flag (`reader.TolerateTornTail()`, set only for the
     active file).  An undecodable chunk is the end of the log when only zeros follow, or — for a
-    tolerant reader only — when it is cut short by the end of the file; otherwise it is an error. -/
+    tolerant reader only — when it is cut short by the end of the file or by a zero region that
+    reaches the end of the file (`tornZero`); otherwise it is an error. -/
 def chunkSeq (C : Codec) (tol : Bool) (f : ByteArray) (block off : Nat) : Out (ByteArray × CT) :=
   let base := block * BS
   if base ≥ f.size then .eof else
@@ -114,8 +133,9 @@ def chunkSeq (C : Codec) (tol : Bool) (f : ByteArray) (block off : Nat) : Out (B
   if off ≥ size then .eof else
   match C.dec (f.extract (base + off) (base + size)) with
   | .ok p t => .ok (p, t)
-  | .incomplete => if (tol = true ∧ base + size = f.size) ∨ allZeroFrom f (base + off) then .eof else .err
-  | .badCrc => if allZeroFrom f (base + off) then .eof else .err
+  | .incomplete =>
+    if (tol = true ∧ base + size = f.size) ∨ allZeroFrom f (base + off) ∨ tornZero tol f base off size = true then .eof else .err
+  | .badCrc => if allZeroFrom f (base + off) ∨ tornZero tol f base off size = true then .eof else .err
 
 /-- one loop iteration of `readToBuf`: a position-based read must find a complete chunk -/
 def chunkRand (C : Codec) (f : ByteArray) (block off : Nat) : Out (ByteArray × CT) :=
